@@ -102,7 +102,14 @@ def gated_cell_history(it, rng, trials=24):
             e2[n_] = rng.choice(cands)
         content = {m["name"]: 0 for m in mems}
         h = []
-        for env in (e1, e2):
+        v1, v2 = values(it.decls, e1), values(it.decls, e2)
+        # while the inputs change the enable cone and the data cone settle at different speeds, so a cell
+        # whose enable drops may legitimately latch a transient of its data: the hold phase is only judged
+        # when the data of every cell that is being closed is the same before and after the change
+        hold_ok = all(fa.ev(m["data"], v1) == fa.ev(m["data"], v2) for m in mems
+                      if (fa.ev(m["when"], v1) if m.get("when") is not None else 1) > 0
+                      and (fa.ev(m["when"], v2) if m.get("when") is not None else 1) <= 0)
+        for env in ((e1, e2) if hold_ok else (e1,)):
             v = values(it.decls, env)
             for m in mems:
                 en = fa.ev(m["when"], v) if m.get("when") is not None else 1
